@@ -443,6 +443,14 @@ class Executor(Engine):
                 and isinstance(st.env[recv.value.id].ty, TRec) and recv.attr in st.env[recv.value.id].ty.fields:
             field = recv.attr
             recv = recv.value
+        elif isinstance(recv, ast.Attribute) and isinstance(recv.value, ast.Name) and recv.value.id in st.env \
+                and isinstance(st.env[recv.value.id].ty, TRec) and ('_' + recv.attr) in st.env[recv.value.id].ty.fields \
+                and self.method_qual(st.env[recv.value.id].ty, recv.attr) \
+                and self.contracts[self.method_qual(st.env[recv.value.id].ty, recv.attr)].d.get('property'):
+            # x.prop.extend(..) where the read-only property `prop` returns the field `_prop` itself (its accessor contract says so): the
+            # mutation edits that field of x
+            field = '_' + recv.attr
+            recv = recv.value
         if not isinstance(recv, ast.Name):
             raise OutOfSubset(f'mutation of non-name {ast.unparse(recv)} at line {line}')
         name = recv.id
@@ -453,7 +461,8 @@ class Executor(Engine):
         base = owner if field is None else V(owner.ty.fields[field], owner.ty.get(field, owner.t))
         new = None
         obase = base
-        if isinstance(base.ty, TOpt) and isinstance(base.ty.inner, (TList, TSet, TBag)):
+        if isinstance(base.ty, TOpt) and (isinstance(base.ty.inner, (TList, TSet, TBag)) or
+                                         (isinstance(base.ty.inner, TAbs) and base.ty.inner.name in getattr(self, 'opaque_lists', ()))):
             ctx.exc('AttributeError', base.ty.is_none(base.t))
             base = V(base.ty.inner, base.ty.val(base.t))
         if isinstance(base.ty, TList):
@@ -494,6 +503,11 @@ class Executor(Engine):
                 new = V(bt, z3.Store(base.t, x, z3.Select(base.t, x) + 1))
             elif meth == 'extend' and isinstance(args[0].ty, TBag):
                 new = self.bag_union(base, args[0], ctx)
+        elif isinstance(base.ty, TAbs) and base.ty.name in getattr(self, 'opaque_lists', ()):
+            if meth == 'extend' and args[0].ty == base.ty:
+                # an opaque list extended by another: CAT(a, b), a function of the two values (only its items view is ever inspected)
+                cat = z3.Function('spec_CAT_' + base.ty.name, base.ty.sort(), base.ty.sort(), base.ty.sort())   # = the spec function CAT_<type> of the contract module
+                new = V(base.ty, cat(base.t, args[0].t))
         elif isinstance(base.ty, TDict):
             dt = base.ty
             if meth == 'setdefault' and len(args) == 2:
